@@ -80,7 +80,7 @@ type Sim struct {
 	current   *Task
 	curInst   int
 	passAll   atomic.Bool
-	ksCalls   atomic.Int64 // keyspace-function entries (counted in every mode)
+	ksCalls   atomic.Int64    // keyspace-function entries (counted in every mode)
 	sites     map[string]bool // nil = all sites park; else only listed ones
 	Step      int
 	Log       []string // event log (controller decisions, notes)
@@ -90,10 +90,10 @@ type Sim struct {
 	rewriting map[int]bool // instance currently inside RewriteLog (engine.mut held)
 	// hooks for profiles
 	OnYieldOpp func(site string, t *Task) // fault/crash opportunity at selected yield sites (every mode)
-	OnNote   func(ev string, t *Task)
-	OnFault  func(site string, t *Task) error
-	OnFS     func(kind, path string, b []byte, t *Task)
-	WrapFile func(path string, f verifhook.File, t *Task) verifhook.File
+	OnNote     func(ev string, t *Task)
+	OnFault    func(site string, t *Task) error
+	OnFS       func(kind, path string, b []byte, t *Task)
+	WrapFile   func(path string, f verifhook.File, t *Task) verifhook.File
 	// stats
 	Stats Stats
 	// schedule hash: FNV over (site) at steps with >=2 choices
@@ -406,6 +406,12 @@ func (s *Sim) Advance(d time.Duration) {
 	s.logf("advance %v", d)
 	time.Sleep(d)
 	s.Settle()
+}
+
+// AdvanceSync moves the clock and lets every task woken by a timer run to completion (sequential profiles).
+func (s *Sim) AdvanceSync(d time.Duration) {
+	s.Advance(d)
+	s.DrainAll(2000)
 }
 
 // noteChoice folds a decision into the schedule hash.
